@@ -13,6 +13,8 @@ CLAIMS = {
          "Lean 4 induction proof over byte lists + exhaustive small-scope and random differential correspondence", "§7 C02"),
  "C10": ("Lean 4 theorems slots_eq_layout (slot counter = Solidity layout rule for every sequence of sizes in 1..256, unbounded length), report_sound / report_not_if_optimal / report_if_sorting_saves (the packing report implies a strictly better permutation exists, is never made when the declared order is optimal, is always made when the ascending arrangement saves a slot), and the regenerated type-size table. Model = code observed exhaustively on all size sequences up to length 3 (quick) / 4 (thorough) over the 32 byte-granular sizes, sampled to length 44, on every elementary type, and on the two detectors over generated files.",
          "Lean 4 proof (lock-step fold invariant, sorted-permutation uniqueness) + translator-regenerated size table + exhaustive small-scope differential correspondence", "§7 C10"),
+ "C05": ("Lean 4 theorem C05_all: for each of the eleven expression-level gas detectors, for every tree, the model reports exactly the locations of the nodes anywhere in the file (outside assembly, via C01) that have the detector's exact form; canonical forms are exact and exact forms are never clearly-non-matching (specifications in lean/Solstat/Spec/C05.lean, written through one-level views, independent of the model's nested matches). shift_math's digit-string test is proved equal to 'value is 2^k'; increment_decrement's location subtraction is proved equal to 'prefix form under an unchecked block' given distinct locations. Model = code observed on generated files with every canonical/near-miss form placed at random syntactic positions; the oracle (canonical => reported, reported => not non-matching) is evaluated on the implementation's output.",
+         "Lean 4 proofs of per-detector exact characterisations lifted by the walker theorem + differential correspondence + executable C/N oracle", "§7 C05, §8.1"),
 }
 
 def main():
